@@ -157,8 +157,7 @@ def _obs(draw, n):
 
 
 @st.composite
-def _exact(draw, tier):
-    n = draw(st.sampled_from([1, 2, 2, 3, 3]))
+def _exact(draw, tier, n):
     spec = {"mode": "exact", "n": n, "layers": draw(_layers(n, special=draw(st.integers(0, 5)) == 0))}
     if draw(st.booleans()):
         spec["mix"] = {"p": draw(st.sampled_from([0.5, 0.25, 0.1, 0.9])), "layers": draw(_layers(n))}
@@ -167,16 +166,21 @@ def _exact(draw, tier):
                                       st.permutations(list(range(n)))))
     subs = [list(s) for r in range(1, n + 1) for s in itertools.permutations(range(n), r)]
     spec["subsets"] = draw(st.lists(st.sampled_from(subs), min_size=1, max_size=3))
-    spec["k"] = draw(st.sampled_from([2, 3, 6]))
+    # median of means (k > 1) on a drawn multiset of 24 snapshots and a low-weight word (many matching recipes)
+    spec["k"] = draw(st.sampled_from([2, 3, 4, 6, 8]))
+    spec["rows"] = draw(st.lists(st.integers(0, 6 ** n - 1), min_size=24, max_size=24))
+    pos = draw(st.integers(0, n - 1))
+    kw = ["I"] * n
+    kw[pos] = draw(st.sampled_from("XYZ"))
+    if n > 1 and draw(st.booleans()):
+        kw[(pos + 1) % n] = draw(st.sampled_from("XYZ"))
+    spec["kword"] = "".join(kw)
     return spec
 
 
 @st.composite
-def _device(draw, tier):
-    n_dev = draw(st.sampled_from([1, 2, 2, 3, 3]))
-    m = draw(st.sampled_from([1, 2, 2, 2, 3])) if n_dev > 1 else 1
+def _device(draw, tier, dev, n_dev, m):
     wires = list(draw(st.permutations(range(n_dev))))[: min(m, n_dev)]
-    dev = draw(st.sampled_from(["default.qubit", "default.mixed"]))
     layers = draw(_layers(n_dev))
     if len(wires) >= 2 and draw(st.integers(0, 4)):
         # make sure the measured wires are entangled with each other (correlated outcomes)
@@ -193,7 +197,17 @@ def _device(draw, tier):
 
 
 def strategy(tier):
-    return st.one_of(_exact(tier), _exact(tier), _device(tier))
+    # explicit strata (Hypothesis spreads poorly over nested sampled_from choices with < 100 examples)
+    exact = [_exact(tier, n) for n in (2, 1, 2, 3, 3)]
+    device = [_device(tier, dev, n_dev, m) for dev in ("default.qubit", "default.mixed")
+              for n_dev, m in ((1, 1), (2, 2), (3, 2), (3, 3), (2, 1))]
+    strata = exact + exact + device
+
+    @st.composite
+    def pick(draw):
+        return draw(strata[draw(st.integers(0, 2 ** 30)) % len(strata)])
+
+    return pick()
 
 
 def enumerate_cases(tier):
@@ -329,11 +343,20 @@ def _check_exact(spec):
             raise Viol("expval-mean", f"{o}: full-enumeration shadow gives {full!r}, mean of per-snapshot values "
                                       f"{per.mean()!r}, identity coefficient {ident!r}", sig="expval-" + o["form"],
                        features=dict(feats, form=o["form"]))
-        if len(o["terms"]) == 1 and T % spec["k"] == 0:
-            got = float(np.asarray(shadow.expval(op, k=spec["k"])))
-            ref = median_of_means(per, spec["k"])
-            if abs(got - ref) > 1e-9:
-                raise Viol("median-of-means", f"{o} k={spec['k']}: {got!r} != {ref!r}", features=feats)
+    # k > 1: documented median of means over k equal parts, on a drawn multiset of snapshots
+    if spec.get("rows"):
+        rows = np.array(spec["rows"])
+        kop = build_word(spec["kword"], labels)
+        sub = qp.ClassicalShadow(bits[rows], recipes[rows], wire_map=list(labels))
+        per_k = np.array([float(np.asarray(singles[t].expval(kop, k=1))) for t in rows])
+        got = float(np.asarray(sub.expval(kop, k=spec["k"])))
+        ref = median_of_means(per_k, spec["k"])
+        if abs(got - ref) > 1e-9:
+            raise Viol("median-of-means", f"word {spec['kword']} k={spec['k']} rows {rows.tolist()}: {got!r} != {ref!r}",
+                       features=feats)
+        if len({round(float(np.mean(per_k[i * (24 // spec['k']):(i + 1) * (24 // spec['k'])])), 9)
+                for i in range(spec["k"])}) > 1:
+            lab.append("median-of-means-nondegenerate")
     # a list of observables returns one value per observable
     both = np.asarray(singles[T // 2].expval(ops, k=1)).reshape(-1)
     sep = np.array([float(np.asarray(singles[T // 2].expval(op, k=1))) for op in ops])
